@@ -246,6 +246,8 @@ with NT():
     if not (a == cp) or not (cp == a) or (a != cp): res = "copy-unequal"
     im = a.toImmutable()
     if not (im == Factory.fromJson(a.toJson())): res = res or "json-reload-unequal-in-immutable-form"
+    if (a == im) != (im == a): res = res or "live-vs-immutable-comparison-not-symmetric"
+    if (a != im) == (a == im): res = res or "live-vs-immutable-ne-is-not-negation"
     if not (im == im.copy()): res = res or "immutable-copy-unequal"
     pc = pickle.loads(pickle.dumps(a))
     if not (a == pc) or not (pc == a): res = res or "pickle-clone-unequal"
